@@ -66,51 +66,6 @@ HOSTILE = [
 ]
 
 
-EXTREMES = {
-    4: [b'\x7f\xff\xff\xff', b'\x80\x00\x00\x00', b'\xff\xff\xff\xfe'],
-    8: [b'\x7f' + 7 * b'\xff', b'\x80' + 7 * b'\x00', 7 * b'\xff' + b'\xfe', b'\x00\x00\x01' + 5 * b'\x00'],
-}
-
-
-def _extreme_one(name):
-    from symcheck.api import parse_errors, raise_site  # pylint: disable=import-outside-toplevel
-    allowed = parse_errors()
-    cls = registry.resolve(name)
-    accepted = [data for data, _ in registry.accepted_seeds(cls)]
-    if not accepted:
-        return []
-    data = min(accepted, key=lambda item: (len(item), item))
-    if not 4 <= len(data) <= 400:
-        return []
-    found = {}
-    for width, patterns in sorted(EXTREMES.items()):
-        for offset in range(0, len(data) - width + 1):
-            for pattern in patterns:
-                variant = data[:offset] + pattern + data[offset + width:]
-                try:
-                    cls.parse_immutable(variant)
-                except allowed:
-                    pass
-                except Exception as exc:  # pylint: disable=broad-except
-                    etype, site = raise_site(exc)
-                    found.setdefault((etype, site), '%s: %s escapes from %s for bytes %d..%d = %s of %s' % (
-                        name, etype, site, offset, offset + width - 1, pattern.hex(), data.hex()[:80]))
-    return sorted(found.values())
-
-
-def extreme_fields():
-    """concrete: every 4- and 8-byte aligned-or-not field of the shortest accepted vector of every seeded class set to
-    the ends of its signed / unsigned range (timestamps, lengths, counts: magnitudes a one-byte window cannot reach)"""
-    import multiprocessing  # pylint: disable=import-outside-toplevel
-    names = [registry.class_name(cls) for cls, _ in registry.seeded_classes()]
-    with multiprocessing.get_context('fork').Pool(16) as pool:
-        rows = pool.map(_extreme_one, names, chunksize=4)
-    problems = []
-    for row in rows:
-        problems.extend(row)
-    return problems[:40]
-
-
 def hostile_values():
     """concrete: magnitudes and calendar boundaries no window reaches from a seed; only the four parse errors escape"""
     from symcheck.api import parse_errors  # pylint: disable=import-outside-toplevel
@@ -161,9 +116,6 @@ def shards(tier, seed):
     out.append(Shard(MOD, 'hostile_values', 'hostile_values', {}, kind='concrete',
                      bounds='%d well-formed text values with overflowing magnitudes or dates at the ends of the calendar '
                             '(natively)' % sum(len(values) for _, values in HOSTILE)))
-    out.append(Shard(MOD, 'extreme_fields', 'extreme_fields', {}, kind='concrete',
-                     bounds='every 4- and 8-byte field position of the shortest accepted vector of every seeded class set '
-                            'to 7f..ff, 80..00, ff..fe (natively)'))
     # the other entry points share _parse; they differ in the type of the buffer (bytearray) and the exact-size check
     extra = []
     seen = set()
